@@ -140,6 +140,8 @@ def site_program(site, payloads):
     (page, anchor, expected verbatim text that must appear in the row)."""
     decl, cont, checks = [], [], []
     types = []
+    lower_opt = site.endswith("-lower")
+    site = site[:-6] if lower_opt else site
     for i, pl in enumerate(payloads):
         n = f"v{i}"
         L = lit(pl) if site != "relational" else None
@@ -247,9 +249,10 @@ KINDEXPR = ["selected_real_kind(6, 30)", "selected_int_kind(9)", "kind(1.0d0)", 
 
 
 def check_batch(st: Stats, site, payloads, neutral_shape):
+    OPTS = dict(display=["public", "private", "protected"], proc_internals=True, incl_src=False, **(dict(lower=True) if site.endswith("-lower") else {}))
     if len(payloads) > 1:
         files, checks = site_program(site, payloads)
-        r0 = fordrun.build(files, dict(display=["public", "private", "protected"], proc_internals=True, incl_src=False), stage="write")
+        r0 = fordrun.build(files, OPTS, stage="write")
         ok = r0.error is None and r0.stage_reached == "write" and "ERROR in file" not in r0.log and "Error parsing" not in r0.log and all(
             (r0.out / c[0]).exists() for cs in checks for c in (cs if isinstance(cs, list) else [cs]))
         r0.cleanup()
@@ -259,7 +262,7 @@ def check_batch(st: Stats, site, payloads, neutral_shape):
                 shapes.update(check_batch(st, site, [pl], neutral_shape))
             return shapes
     files, checks = site_program(site, payloads)
-    r = fordrun.build(files, dict(display=["public", "private", "protected"], proc_internals=True, incl_src=False), stage="write")
+    r = fordrun.build(files, OPTS, stage="write")
     st.evaluations += 1
     stratum = f"site/{site}"
     shapes = {}
@@ -414,6 +417,9 @@ def main(tier, replay_path=None):
     for es in EXPR_SITES:
         # a kind selector is one scalar expression
         jobs.append((es, [e for e in EXPRS if es != "expr-kind-result" or (":" not in e and ", " not in e.replace("(nn/2, 1)", "").replace("[1, 2]", ""))]))
+    # the `lower` option lower-cases code, never the text of character literals
+    for ls in ("initial-module-lower", "initial-component-lower", "bind-proc-lower", "initial-namelist-lower"):
+        jobs.append((ls, ["Hello <World> & Co", "MeV  GeV", "N/A", "getCode", "ALL CAPS", "camelCase_Name"]))
     for cs in CHARLEN_SITES:
         jobs.append((cs, [c for c in CHARLEN if cs == "charlen-arg" or "(*)" not in c]))
     jobs.append(("binding-target", [f"impl_{c}" for c in "abcdefgh"]))
